@@ -105,7 +105,7 @@ static int vf_nassumptions;
 static int vf_thorough;
 static int vf_workers = 16;
 static double vf_deadline_s = -1;
-static double vf_hang_s = 20.0;
+static double vf_hang_s = 60.0;
 static int64_t vf_t0_ms;
 static const char *vf_replay_file;
 static char vf_replay_space[64], vf_replay_casestr[512];
@@ -318,6 +318,7 @@ static void vf_init(int argc, char **argv, const char *prop, const char *level)
             line[strcspn(line, "\n")] = 0;
             if (!strncmp(line, "space ", 6)) snprintf(vf_replay_space, sizeof vf_replay_space, "%s", line + 6);
             if (!strncmp(line, "case ", 5)) snprintf(vf_replay_casestr, sizeof vf_replay_casestr, "%s", line + 5);
+            if (!strncmp(line, "tier ", 5)) vf_thorough = !strcmp(line + 5, "thorough");   /* spaces are decoded per tier */
         }
         fclose(f);
         vf_verbose = 1;
